@@ -247,7 +247,7 @@ func c03CopyVersionNext(g *prog.Gen, idx int, hist []*prog.Step) *prog.Op {
 func init() {
 	checks["c03"] = checkDef{"C03",
 		"(1) discriminating-policy programs: for every stage-1 op template × every policy action, a policy allowing exactly one action on one resource shape to one caller (optionally with a Deny on the object), then that caller performs the op and root observes the effect; (2) random programs over buckets with different owners, canned ACLs, ownership settings and random valid policies, callers root/admin/userplus/user. Each step compared with Model.Gw.step. Non-trivial = program reaches an existing bucket; distinct by op list.",
-		[]checkFn{func(a lib.Args, res *lib.Result) error {
+		[]checkFn{c03TornPolicy, func(a lib.Args, res *lib.Result) error {
 			n := 24 * len(c03Actions)
 			if a.Thorough() {
 				n *= 6
